@@ -34,6 +34,9 @@ pub struct ConcCase {
     pub yields: u64,
     /// a sampler thread reads the counters while producers run
     pub sampler: bool,
+    /// number of sampler threads (when `sampler`)
+    #[serde(default)]
+    pub samplers: u8,
 }
 
 pub struct ConcCampaign {
@@ -48,6 +51,8 @@ fn conc_case(focus: QRule) -> BoxedStrategy<ConcCase> {
         _ => prop_oneof![3 => Just(GateMode::Open), 2 => Just(GateMode::Pulsed)].boxed(),
     };
     let cap = match focus {
+        // tiny queues make the hand-over between a producer's send and its accounting tight
+        QRule::Counters | QRule::Panic => prop_oneof![2 => Just(None), 3 => (1usize..4).prop_map(Some), 1 => (4usize..64).prop_map(Some)].boxed(),
         QRule::Isolation => prop_oneof![1 => Just(None), 4 => (1usize..20).prop_map(Some)].boxed(),
         _ => prop_oneof![3 => Just(None), 1 => (1usize..64).prop_map(Some)].boxed(),
     };
@@ -59,6 +64,7 @@ fn conc_case(focus: QRule) -> BoxedStrategy<ConcCase> {
             mode,
             yields,
             sampler: focus == QRule::Counters || focus == QRule::Panic,
+            samplers: 1 + (yields % 4) as u8,
         })
         .boxed()
 }
@@ -113,6 +119,36 @@ impl Campaign for ConcCampaign {
         let sampler_bad: Arc<std::sync::Mutex<Vec<String>>> = Arc::new(std::sync::Mutex::new(Vec::new()));
         let transient = Arc::new(AtomicU64::new(0));
         let samples = Arc::new(AtomicU64::new(0));
+        let mut samplers_joined = Vec::new();
+        for _ in 1..case.samplers.max(1) {
+            if !case.sampler {
+                break;
+            }
+            let qs = q.clone();
+            let done = done.clone();
+            let bad = sampler_bad.clone();
+            samplers_joined.push(thread::spawn(move || {
+                while !done.load(Ordering::Acquire) {
+                    match util::catch(|| (qs.queued(), qs.submitted())) {
+                        Ok((qd, s)) => {
+                            if qd > s || qd > attempts_total {
+                                let mut b = bad.lock().unwrap();
+                                if b.len() < 3 {
+                                    b.push(format!("queued() = {} but submitted() read afterwards = {} (attempts {})", qd, s, attempts_total));
+                                }
+                            }
+                        }
+                        Err(p) => {
+                            let mut b = bad.lock().unwrap();
+                            if b.len() < 3 {
+                                b.push(format!("queued() panicked under concurrency: {}", p));
+                            }
+                        }
+                    }
+                }
+                drop(qs);
+            }));
+        }
         let sampler = if case.sampler {
             let qs = q.clone();
             let done = done.clone();
@@ -270,6 +306,9 @@ impl Campaign for ConcCampaign {
             }
         }
         if let Some(s) = sampler {
+            let _ = s.join();
+        }
+        for s in samplers_joined {
             let _ = s.join();
         }
         if let Some(p) = pulser {
